@@ -21,7 +21,7 @@ open AGH
 /-! ### binary64 rounding -/
 
 /-- 2^1074: the number of float64 units in 1. -/
-def fUnit : Nat := 2 ^ 1074
+@[irreducible] def fUnit : Nat := 2 ^ 1074
 
 inductive Fl
   | fin (N : Nat)      -- the finite float N · 2^-1074 (sign kept separately)
@@ -118,20 +118,28 @@ inductive NsRes
   | giveUp
 deriving DecidableEq, Repr
 
-/-- `int64(ParseFloat(lit) * 1e6)` for the literal `(-1)^neg · p/d` (milliseconds). -/
-def floatMsToNs (neg : Bool) (p d : Nat) : NsRes :=
-  match roundU (p * fUnit) d with                    -- ParseFloat: nearest float64
-  | .inf => .err
+/-- `int64(ParseFloat(lit) * 1e6)` for the literal `(-1)^neg · p/d` (milliseconds);
+`U` is the number of float64 units in 1 (always `fUnit`; a parameter so that proofs
+never have to look inside 2^1074). -/
+def Fl.andThen (x : Fl) (onInf : NsRes) (f : Nat → NsRes) : NsRes :=
+  match x with
+  | .fin N => f N
+  | .inf => onInf
   | .giveUp => .giveUp
-  | .fin N1 =>
-    match roundU (N1 * 1000000) 1 with                -- msec * nsecPerMsec, rounded again
-    | .inf => .outOfRange
-    | .giveUp => .giveUp
-    | .fin N2 =>
-      let k := N2 / fUnit                             -- int64(): truncation toward zero
-      if k < 2 ^ 63 then .ok (if neg then -(k : Int) else (k : Int))
-      else if neg ∧ k = 2 ^ 63 ∧ N2 % fUnit = 0 then .ok (-(k : Int))
-      else .outOfRange
+
+/-- `int64(x)` for the float `N2` units: truncation toward zero. -/
+def truncNs (U : Nat) (neg : Bool) (N2 : Nat) : NsRes :=
+  let k := N2 / U
+  if k < 2 ^ 63 then .ok (if neg then -(k : Int) else (k : Int))
+  else if neg ∧ k = 2 ^ 63 ∧ N2 % U = 0 then .ok (-(k : Int))
+  else .outOfRange
+
+def floatMsToNsU (U : Nat) (neg : Bool) (p d : Nat) : NsRes :=
+  (roundU (p * U) d).andThen .err fun N1 =>            -- ParseFloat: nearest float64 (±Inf: range error)
+    (roundU (N1 * 1000000) 1).andThen .outOfRange fun N2 =>   -- msec * nsecPerMsec, rounded again
+      truncNs U neg N2
+
+def floatMsToNs (neg : Bool) (p d : Nat) : NsRes := floatMsToNsU fUnit neg p d
 
 /-- Result of `JSONDuration.UnmarshalJSON` on a token. -/
 inductive JRes
